@@ -147,6 +147,20 @@ def oracle_c13(case, lo):
                 fails.append("%s honest proof opens a position outside the codeword" % case.fields["scheme"][0])
         if lib_s(lo, "check") not in (None, "accept"):
             fails.append("%s honest single opening not accepted" % case.fields["scheme"][0])
+        if sh and dims:
+            # the number of openings against the soundness bound 2 (1 - d/2)^t + n/|F| <= 2^-lambda, evaluated exactly with the
+            # scenario's security level and the code's relative distance (1 - 1/rho_inv for Reed-Solomon, Brakedown's constants)
+            sch = case.fields["scheme"][0]
+            if "lig" in case.fields:
+                lam, rho = int(case.fields["lig"][0]), int(case.fields["lig"][1])
+                d0, d1 = rho - 1, rho
+            else:
+                lam, (d0, d1) = 128, {"ligero_uni": (3, 4), "ligero_ml": (1, 2)}.get(sch, (61000, 1521000))
+            t, n_ext = int(sh[0]), int(dims[2])
+            a, b, L = 2 * d1 - d0, 2 * d1, 1 << lam
+            if t < n_ext and not any(2 * a ** t * L * Fs + n_ext * b ** t * L <= b ** t * Fs for Fs in (R_BLS381, 1 << 255)):
+                fails.append("%s (security %d, relative distance %d/%d, codeword length %d): an honest proof opens %d columns, too few "
+                             "for 2(1-d/2)^t + n/|F| <= 2^-%d" % (sch, lam, d0, d1, n_ext, t, lam))
         if dims:
             sq = case.meta.get("_lib_in", {})
             n_ext = int(dims[2])
